@@ -246,6 +246,136 @@ def main(argv=None):
                 except Exception as ex:  # noqa
                     run.fail('missing-profile-not-reported', 'a profile lacking the message structure raises something '
                              'else than MessageProfileNotFound', version=v, structure=m, call=call, exc=repr(ex))
+    # ---- profiles that differ INSIDE (repeating) groups; every creation path must thread the profile
+    def same_ref(a, b):
+        if isinstance(a, (tuple, list)) and isinstance(b, (tuple, list)):
+            return len(a) == len(b) and all(same_ref(x, y) for x, y in zip(a, b))
+        return a == b
+
+    def check_threading(el, v, m, route):
+        """every child that its parent's reference declares carries exactly that sub-reference"""
+        ref = getattr(el, 'reference', None)
+        if ref is None or ref[0] not in ('sequence', 'choice'):
+            return
+        rows = {}
+        for row in ref[1]:
+            rows.setdefault(row[0], row)
+        for ch in el.children:
+            row = rows.get(ch.name)
+            if row is None or ch.classname not in ('Group', 'Segment', 'Field'):
+                continue
+            dist['threading_checks'] = dist.get('threading_checks', 0) + 1
+            chref = getattr(ch, 'reference', None)
+            if chref is None or not same_ref(chref, row[1]):
+                run.fail('child-reference-not-from-profile', 'a child does not carry the sub-reference its parent\'s '
+                         '(profile) reference declares for it', version=v, structure=m, parent=el.name, child=ch.name,
+                         cls=ch.classname, route=route)
+                continue
+            if ch.classname in ('Group', 'Segment'):
+                check_threading(ch, v, m, route)
+
+    def deep_edit(ref):
+        """change a field inside a nested group (datatype swap or cardinality) - returns (profile, path) or None"""
+        r = thaw(ref)
+        groups = [row for row in r[1] if row[3] == 'GRP' and (row[2][1] == -1 or row[2][1] > 1)]
+        if not groups:
+            return None
+        g = rng.choice(groups)
+        path = [g[0]]
+        node = g[1]
+        while True:
+            sub = [row for row in node[1] if row[3] == 'GRP']
+            segs = [row for row in node[1] if row[3] == 'SEG' and row[1] is not None and row[1][1]]
+            if segs and (not sub or rng.random() < .6):
+                srow = rng.choice(segs)
+                path.append(srow[0])
+                frow = rng.choice(srow[1][1])
+                path.append(frow[0])
+                frow[2] = [1, 1] if frow[2][0] == 0 else [0, 1]
+                if frow[1][0] == 'leaf' and frow[1][2] in BASE_SWAP:
+                    frow[1][2] = BASE_SWAP[frow[1][2]]
+                return freeze(r), path
+            if not sub:
+                return None
+            gg = rng.choice(sub)
+            path.append(gg[0])
+            node = gg[1]
+
+    def instance_rep2(ref):
+        out = []
+        for row in ref[1]:
+            name, cref, (mn, mx), kind = row
+            n = 2 if (kind == 'GRP' and (mx == -1 or mx > 1)) else (1 if mn >= 1 or kind == 'GRP' else 0)
+            for _ in range(n):
+                if kind == 'SEG':
+                    out.append(name)
+                elif cref is not None:
+                    out.extend(c01.instance_names(cref, 'req') or c01.instance_names(cref, 'all')[:1])
+        return out
+
+    ngrp = 4 if not run.thorough else 30
+    for v in S.VERSIONS:
+        lib = hl7apy.load_library(v)
+        ec = S.default_ec(v)
+        mnames = [m for m in sorted(lib.MESSAGES) if isinstance(lib.MESSAGES[m], tuple) and len(lib.MESSAGES[m]) == 2
+                  and lib.MESSAGES[m][1] and '_' in m and not m.endswith('nn')
+                  and any(row[3] == 'GRP' for row in lib.MESSAGES[m][1])]
+        rng.shuffle(mnames)
+        done = 0
+        for m in mnames:
+            if done >= ngrp:
+                break
+            std = lib.MESSAGES[m]
+            try:
+                ed = deep_edit(std)
+                names = instance_rep2(std)
+            except Exception:  # noqa
+                continue
+            if ed is None or not names or names[0] != 'MSH' or 'ANYHL7SEGMENT' in names or len(names) > 40:
+                continue
+            if any(not S.ok_segment(lib, n) or not lib.SEGMENTS[n][1] for n in names[1:]):
+                continue
+            prof = {m: ed[0]}
+            done += 1
+            dist['group_profiles'] = dist.get('group_profiles', 0) + 1
+            text = '\r'.join([c01.msh_line(m, v)] + [c01.canonical_line(rng, lib, ec, n) for n in names[1:]])
+            try:
+                msg = parse_message(text, validation_level=S.TOLERANT, message_profile=prof)
+                check_threading(msg, v, m, 'parse_message')
+                rep_a = sorted(str(e) for e in msg.validate(return_errors=True).errors)
+                # the same through the constructor + value assignment
+                m2 = Message(m, version=v, reference=prof, validation_level=S.TOLERANT)
+                m2.value = text
+                if not same_ref(getattr(m2, 'reference', None), prof[m]):
+                    run.fail('message-reference-not-profile', 'after Message(name, reference=p); m.value = text the message '
+                             'no longer carries p[name]', version=v, structure=m)
+                else:
+                    check_threading(m2, v, m, 'Message.value')
+                    rep_b = sorted(str(e) for e in m2.validate(return_errors=True).errors)
+                    if rep_a != rep_b:
+                        run.fail('profile-verdict-differs-by-path', 'validate() gives different reports for the same text '
+                                 'and profile depending on the creation path (parse_message vs Message.value)',
+                                 version=v, structure=m, parse_message=rep_a[:4], message_value=rep_b[:4])
+                # children created through the helpers take the profile's sub-reference
+                m3 = Message(m, version=v, reference=prof, validation_level=S.TOLERANT)
+                for row in prof[m][1]:
+                    if row[0] == 'MSH':
+                        continue
+                    try:
+                        ch = m3.add_group(row[0]) if row[3] == 'GRP' else m3.add_segment(row[0])
+                    except HL7apyException:
+                        continue
+                    if not same_ref(getattr(ch, 'reference', None), row[1]):
+                        run.fail('child-reference-not-from-profile', 'a child created by add_group/add_segment does not '
+                                 'carry the profile\'s sub-reference', version=v, structure=m, parent=m, child=row[0],
+                                 cls=ch.classname, route='add_helper')
+                check_threading(m3, v, m, 'add_helper')
+            except HL7apyException as ex:
+                run.note('group profile %s %s skipped: %r' % (v, m, ex))
+            except Exception as ex:  # noqa
+                run.fail('profiled-parse-crashes', 'parsing / building a conforming message under a profile that differs '
+                         'inside a repeating group raised a non-library exception', version=v, structure=m,
+                         path=ed[1], text=text, exc=repr(ex))
     # shipped profiles
     base = os.path.join(REPO, 'tests', 'profiles')
     try:
